@@ -58,6 +58,7 @@ class SoulSeekClient:
         self.settings: Settings = settings
 
         self._stop_event: Optional[asyncio.Event] = None
+        self._scan_task: Optional[asyncio.Task] = None
 
         self.ticket_generator = ticket_generator()
         self.events: EventBus = event_bus or EventBus()
@@ -125,7 +126,7 @@ class SoulSeekClient:
         await asyncio.gather(*[svc.start() for svc in self.services])
 
         if self.settings.shares.scan_on_start:
-            asyncio.create_task(self.shares.scan())
+            self._scan_task = asyncio.create_task(self.shares.scan())
 
         if connect:
             await self.connect()
@@ -150,6 +151,13 @@ class SoulSeekClient:
         await self.network.disconnect()
 
         cancelled_tasks = []
+        if self._scan_task is not None:
+            # The scan started by `start` might still be running
+            if not self._scan_task.done():
+                self._scan_task.cancel()
+                cancelled_tasks.append(self._scan_task)
+            self._scan_task = None
+
         for service in self.services:
             cancelled_tasks.extend(await service.stop())
 
